@@ -209,8 +209,17 @@ func propC11(c *Ctx) {
 		wp := "iface:stack.NetworkEndpoint.WritePacket($0.ref.ep, $0, $1, $2, $3, $4)"
 		c.CheckSites(u5, fn, []SiteSpec{
 			{Kind: "call", Target: "iface:stack.NetworkEndpoint.WritePacket", Args: []string{"$0.ref.ep", "$0", "$1", "$2", "$3", "$4"}, Guards: []string{}, Exact: true, N: 1, Why: "the route hands header, payload, protocol and TTL to the network endpoint unchanged"},
-			{Kind: "return", Args: []string{wp}, Guards: []string{}, Exact: true, N: 1, Why: "... and returns ITS result: an error from the network or link layer (message too long, device refused) is never turned into success"},
 		})
+		// every return (one, or an early one plus the ErrNoRoute tail) hands back the
+		// network endpoint's own result
+		nr := 0
+		for _, st := range Sites(fn) {
+			if st.Kind == "return" {
+				nr++
+				c.Check(len(st.Args) == 1 && termEq(st.Args[0], wp), u5, FuncName(fn)+"/returns-callee-result:"+strings.Join(st.Guards, "&&"), c.pos(st.Instr), "returns the network endpoint's result", "Route.WritePacket returns "+strings.Join(st.Args, ",")+" instead of the network endpoint's result: an error from the network or link layer can be turned into success")
+			}
+		}
+		c.Check(nr >= 1, u5, FuncName(fn)+"/has-return", c.P.Pos(fn.Pos()), "returns", "no return")
 	}
 	if fn := c.Fn(u5, "(*udp.endpoint).Write"); fn != nil {
 		payload := "iface:tcpip.Payload.Get($1, iface:tcpip.Payload.Size($1))"
